@@ -183,3 +183,44 @@ pub proof fn lemma_wf_seq_push(s: Seq<Unifiable>, t: Unifiable)
         assert(s.push(t)[0] == s[0]);
     }
 }
+
+// ---- variable ids (C10 / C01: unification introduces no variable id of its own) ------------------------------------------
+// every variable id in t is below b
+pub open spec fn below(t: Unifiable, b: int) -> bool
+    decreases t,
+{
+    match t {
+        Unifiable::LogicVar{id, name} => id < b,
+        Unifiable::SComplex(ts) => below_seq(ts@, b),
+        Unifiable::SLinkedList{term, next, count, tail_var} => below(*term, b) && below(*next, b),
+        Unifiable::SFunction{name, terms} => below_seq(terms@, b),
+        _ => true,
+    }
+}
+pub open spec fn below_seq(s: Seq<Unifiable>, b: int) -> bool
+    decreases s,
+{
+    s.len() == 0 || (below(s[0], b) && below_seq(s.drop_first(), b))
+}
+pub open spec fn ss_below(s: SS, b: int) -> bool {
+    forall|i: int| 0 <= i < s.len() ==> ((#[trigger] s[i]) matches Some(r) ==> below(*r, b))
+}
+pub open spec fn below_all(a: Unifiable, c: Unifiable, s: SS, b: int) -> bool {
+    below(a, b) && below(c, b) && ss_below(s, b)
+}
+// the clause: whatever bounds the ids of the two terms and of the prior bindings bounds the ids of the result
+pub open spec fn post_below(slf: Unifiable, other: Unifiable, ss: Rc<Vec<Option<Rc<Unifiable>>>>, res: Option<Rc<Vec<Option<Rc<Unifiable>>>>>) -> bool {
+    forall|b: int| #[trigger] below_all(slf, other, ss@, b) ==> (match res { Some(r) => ss_below(r@, b), None => true })
+}
+pub proof fn lemma_below_seq_index(s: Seq<Unifiable>, b: int, i: int)
+    requires below_seq(s, b), 0 <= i < s.len(),
+    ensures below(s[i], b),
+    decreases s.len(),
+{
+    if i > 0 { lemma_below_seq_index(s.drop_first(), b, i - 1); }
+}
+// the same for unifying the VALUE of a function term (a constant: no variables of its own) with another term
+pub open spec fn below_fn(c: Unifiable, s: SS, b: int) -> bool { below(c, b) && ss_below(s, b) }
+pub open spec fn post_below_fn(other: Unifiable, ss: Rc<Vec<Option<Rc<Unifiable>>>>, res: Option<Rc<Vec<Option<Rc<Unifiable>>>>>) -> bool {
+    forall|b: int| #[trigger] below_fn(other, ss@, b) ==> (match res { Some(r) => ss_below(r@, b), None => true })
+}
